@@ -239,7 +239,7 @@ func makeLeaf(t reflect.Type, seed uint64, plain, strcast bool) reflect.Value {
 	if seed == 0 {
 		seed = 1
 	}
-	v := shape.MakeValue(t, seed, shape.ValueOpts{Plain: plain})
+	v := makeValue(t, seed, shape.ValueOpts{Plain: plain})
 	if strcast {
 		v = spellable(v)
 	}
@@ -373,4 +373,60 @@ func emptyValue(f *mfield) (reflect.Value, bool) {
 		return reflect.MakeMap(t), true
 	}
 	return reflect.Value{}, false
+}
+
+// hasOtherKeyMap: t contains a map whose key is not a string (shape.MakeValue
+// only builds string-keyed maps).
+func hasOtherKeyMap(t reflect.Type, depth int) bool {
+	if depth > 6 {
+		return false
+	}
+	switch t.Kind() {
+	case reflect.Map:
+		return t.Key().Kind() != reflect.String || hasOtherKeyMap(t.Elem(), depth+1)
+	case reflect.Pointer, reflect.Slice, reflect.Array:
+		return hasOtherKeyMap(t.Elem(), depth+1)
+	}
+	return false
+}
+
+// makeValue is shape.MakeValue extended to maps with non-string keys; such
+// maps always get 1..3 entries with distinct keys (keys and values from
+// sub-seeds, so the value is a pure function of (t, seed, opts)).
+func makeValue(t reflect.Type, seed uint64, o shape.ValueOpts) reflect.Value {
+	if !hasOtherKeyMap(t, 0) {
+		return shape.MakeValue(t, seed, o)
+	}
+	sub := func(i uint64) uint64 { return seed*0x9e3779b97f4a7c15 + i*0xbf58476d1ce4e5b9 | 1 }
+	switch t.Kind() {
+	case reflect.Pointer:
+		p := reflect.New(t.Elem())
+		p.Elem().Set(makeValue(t.Elem(), sub(1), o))
+		return p
+	case reflect.Slice:
+		n := int(seed%3) + 1
+		s := reflect.MakeSlice(t, n, n)
+		for i := 0; i < n; i++ {
+			s.Index(i).Set(makeValue(t.Elem(), sub(uint64(i)+2), o))
+		}
+		return s
+	case reflect.Array:
+		a := reflect.New(t).Elem()
+		for i := 0; i < t.Len(); i++ {
+			a.Index(i).Set(makeValue(t.Elem(), sub(uint64(i)+2), o))
+		}
+		return a
+	case reflect.Map:
+		n := int(seed%3) + 1
+		m := reflect.MakeMapWithSize(t, n)
+		for i := 0; m.Len() < n && i < 50; i++ {
+			k := makeValue(t.Key(), sub(uint64(2*i)+10), o)
+			if m.MapIndex(k).IsValid() {
+				continue
+			}
+			m.SetMapIndex(k, makeValue(t.Elem(), sub(uint64(2*i)+11), o))
+		}
+		return m
+	}
+	return shape.MakeValue(t, seed, o)
 }
